@@ -13,7 +13,8 @@ RULE = ("seeded random key columns (int, float, str, bool, datetime in ns/us/s, 
         "For every constructed GroupBy and every direct factorize_1d / factorize_2d / monotonic_factorization return the "
         "invariants I1-I6 (codes in range, null code iff null key, labels[code] == key, labels distinct, groups = ascending "
         "positions partitioning the non-null rows, sizes add up) are evaluated against the logical keys. The route taken is "
-        "observed on the object, not assumed. distinct = case digests; non-trivial = >= 2 distinct labels and >= 3 rows")
+        "observed on the object, not assumed. Plus keys with 127..65537 (thorough: 140000) distinct labels per kind and multi-key "
+        "groupings whose level-size product lies on both sides of the combiner's 500,000,000 switch, checked vectorised. distinct = case digests; non-trivial = >= 2 distinct labels and >= 3 rows")
 ASSUMPTIONS = [
     "logical nulls are NaN/None/NaT in numpy and pandas containers and Arrow nulls in Arrow-family containers; NaN inside an "
     "Arrow/polars float column is not driven (the containers themselves do not treat it as missing)",
@@ -26,13 +27,104 @@ KC_SHARDS = [["np"], ["np", "pd"], ["pd", "pd_index"], ["pa"], ["pl"], ["pd_arro
 
 
 def plan(tier):
-    return common.std_plan(tier, nshards=len(KC_SHARDS))
+    return common.std_plan(tier, nshards=len(KC_SHARDS)) + [dict(shard=100, nshards=1, mode="prod")]
+
+
+MANY = {"quick": [127, 128, 129, 255, 256, 257, 32767, 32768, 65535, 65536, 65537],
+        "thorough": [127, 128, 129, 255, 256, 257, 300, 32767, 32768, 32769, 65535, 65536, 65537, 70000, 140000]}
+
+
+def _many_key(rng, kind, L, n, null_p):
+    """n rows over exactly L distinct labels (every label occurs), random order; returns (array-like key, object array of logical values)"""
+    lab = rng.permutation(L)
+    rows = np.concatenate([lab, rng.integers(0, L, size=n - L)])
+    rows = rows[rng.permutation(n)]
+    null = rng.random(n) < null_p
+    if kind == "int":
+        arr = (rows.astype("int64") * 7 - 1000)
+        if null.any():  # an integer key has no null: make it a float key
+            arr = arr.astype("float64")
+            arr[null] = np.nan
+        return arr, null
+    if kind == "float":
+        arr = rows.astype("float64") / 4.0
+        arr[null] = np.nan
+        return arr, null
+    if kind == "dt":
+        arr = (rows.astype("int64") * 1_000_000_007 + 1_600_000_000_000_000_000).view("datetime64[ns]").copy()
+        arr[null] = np.datetime64("NaT")
+        return arr, null
+    words = np.array([f"w{int(x):06d}" for x in range(L)], dtype=object)
+    if kind == "str":
+        arr = words[rows].copy()
+        arr[null] = None
+        return arr, null
+    codes = rows.astype("int64").copy()
+    codes[null] = -1
+    return pd.Categorical.from_codes(codes, categories=list(words[rng.permutation(L)])), null
+
+
+def check_many(case, ctx):
+    """many labels: codes, labels and sizes against the keys themselves (vectorised I1-I4, I6), across the 8/16-bit code boundaries
+    and across the dense-array / dictionary switch of the multi-key combiner (cartesian product of the level sizes >= 500,000,000)."""
+    from groupby_lib import GroupBy
+
+    rng = np.random.Generator(np.random.PCG64(case["seed"]))
+    n = case["n"]
+    built = [_many_key(rng, kind, L, n, case["null_p"]) for kind, L in zip(case["kinds"], case["L"])]
+    arrs = [b[0] for b in built]
+    null = np.zeros(n, bool)
+    for b in built:
+        null |= b[1]
+    sig = f"many|{'+'.join(case['kinds'])}|sort={case['sort']}"
+    gb = lib.call(GroupBy, arrs if len(arrs) > 1 else arrs[0], sort=case["sort"])
+    if lib.raised(gb):
+        return [{"monitor": "c02.raised", "sig": sig, "detail": f"GroupBy over {case['L']} labels raised {gb!r}"}]
+    codes = np.asarray(gb.group_ikey).astype("int64")
+    idx = gb.result_index
+    what = f"keys {case['kinds']} with {case['L']} labels, {n} rows"
+    if len(codes) != n:
+        return [{"monitor": "c02.codes", "sig": sig, "detail": f"{what}: {len(codes)} codes"}]
+    if ((codes < 0) != null).any():
+        i = int(np.flatnonzero((codes < 0) != null)[0])
+        return [{"monitor": "c02.null_code", "sig": sig, "detail": f"{what}: row {i} null key={bool(null[i])} but code {int(codes[i])}"}]
+    if codes.max(initial=-1) >= len(idx):
+        return [{"monitor": "c02.codes", "sig": sig, "detail": f"{what}: code {int(codes.max())} with {len(idx)} labels"}]
+    ok = ~null
+    for j, a in enumerate(arrs):
+        lab = idx.get_level_values(j) if idx.nlevels > 1 else idx
+        lab = np.asarray(lab.astype(object)) if not str(lab.dtype).startswith("datetime") else lab.to_numpy().astype("datetime64[ns]").view("int64")
+        mine = np.asarray(a.astype(object)) if isinstance(a, pd.Categorical) else a
+        mine = mine.view("int64") if getattr(mine, "dtype", None) is not None and mine.dtype.kind == "M" else mine
+        got = lab[codes[ok]]
+        bad = np.flatnonzero(got != mine[ok])
+        if len(bad):
+            i = int(np.flatnonzero(ok)[bad[0]])
+            return [{"monitor": "c02.label", "sig": sig, "detail": f"{what}: row {i} has key {mine[i]!r} in position {j} but its label says {got[bad[0]]!r}"}]
+    if not idx.is_unique:
+        return [{"monitor": "c02.distinct", "sig": sig, "detail": f"{what}: labels are not pairwise distinct"}]
+    observed = len(np.unique(codes[ok]))
+    if len(arrs) == 1 and not isinstance(arrs[0], pd.Categorical) and observed != case["L"][0] and not null.any():
+        return [{"monitor": "c02.distinct", "sig": sig, "detail": f"{what}: {observed} codes in use"}]
+    sizes = lib.call(gb.size)
+    if lib.raised(sizes) or int(np.asarray(sizes).sum()) != int(ok.sum()):
+        return [{"monitor": "c02.sizes", "sig": sig, "detail": f"{what}: sizes {sizes!r} do not add up to {int(ok.sum())} rows"}]
+    bc, sz = np.bincount(codes[ok], minlength=len(idx)), np.asarray(sizes).astype("int64")
+    if not np.array_equal(np.sort(bc[bc > 0]), np.sort(sz[sz > 0])):  # (a category left without a non-null row may or may not be listed)
+        return [{"monitor": "c02.sizes", "sig": sig, "detail": f"{what}: per-group sizes differ from the code counts"}]
+    ctx.count("many_label_cases")
+    prod = int(np.prod([float(x) for x in case["L"]]))
+    if len(arrs) > 1:
+        ctx.count("multi_key_product_ge_5e8" if prod >= 500_000_000 else "multi_key_product_lt_5e8")
+    if max(case["L"]) > 32767:
+        ctx.count("labels_above_32767")
+    return []
 
 
 def required_counters(tier):
     return ["route:plain", "route:chunked_pointers", "route:monotonic_full", "route:sorted_prefix", "route:prechunked_arrow",
             "route:categorical", "route:bool", "route:range", "route:arrow", "route:multi_key", "null_first_key", "null_last_key",
-            "direct_factorize_1d", "direct_factorize_2d", "direct_monotonic", "invariant_evaluations", "dictionary_array_keys", "per_chunk_dictionaries"]
+            "direct_factorize_1d", "direct_factorize_2d", "direct_monotonic", "invariant_evaluations", "dictionary_array_keys", "per_chunk_dictionaries", "many_label_cases", "labels_above_32767", "multi_key_product_ge_5e8", "multi_key_product_lt_5e8"]
 
 
 def features(case):
@@ -275,6 +367,22 @@ def gen_case(rng, containers):
 
 
 def run(ctx):
+    if ctx.shard == 100:
+        rng = gen.rng_for(ctx.seed, "C02", 100)
+        j = 0
+        todo = []
+        for L in MANY[ctx.tier]:
+            for kind in (["int", "str", "cat", "float", "dt"] if (ctx.tier == "thorough" or L in (128, 256, 32768, 65536)) else [gen.pick(rng, ["int", "str", "cat", "float", "dt"])]):
+                todo.append(([kind], [L], L + int(rng.integers(0, L // 2 + 2))))
+        for L3 in ([(300, 300), (200, 200, 200), (800, 800, 800), (40000, 40000), (70000, 3)] + ([(1300, 1300, 1300), (128, 256), (32768, 2, 2)] if ctx.tier == "thorough" else [])):
+            todo.append(([gen.pick(rng, ["int", "str", "cat", "float", "dt"]) for _ in L3], list(L3), max(L3) + int(rng.integers(100, 3000))))
+        for kinds, L, n in todo:
+            for sort in (True, False):
+                j += 1
+                case = {"many": True, "kinds": kinds, "L": L, "n": n, "sort": sort, "null_p": gen.pick(rng, [0.0, 0.02]), "seed": int(ctx.seed) * 10000 + j,
+                        "noshrink": True, "keys": [], "kc": ["np"]}
+                ctx.run_case(case, check_many, lambda c: [f"many|{'+'.join(c['kinds'])}|L={'x'.join(map(str, c['L']))}"], lambda c: True)
+        return
     containers = KC_SHARDS[ctx.shard % len(KC_SHARDS)]
     rng = gen.rng_for(ctx.seed, "C02", ctx.shard, 1 if ctx.mode != "prod" else 0)
     ncases = N_CASES[ctx.tier] if ctx.mode == "prod" else max(50, N_CASES[ctx.tier] // 3)
